@@ -35,8 +35,9 @@ pub const NEST_FINDING: &str = "parser-nesting-depth-stack-overflow";
 pub const SEP_FINDING: &str = "lexical-debug-assertion-separator-after-point";
 
 /// the shape of the known finding: a panic with lexical's digit-separator assertion on a text that has `._`
-fn is_sep_finding(text: &str, msg: &str) -> bool {
-    msg.contains("format.digit_separator()") && text.contains("._")
+/// (the defect is repaired in /repo, commit 03c1570: a fixed entry suppresses nothing, so nothing is tagged any more)
+fn is_sep_finding(_text: &str, _msg: &str) -> bool {
+    false
 }
 
 /// "ok" | "err" | "panic: <message>" for one entry point
